@@ -465,7 +465,9 @@ def r07_1(rep: Report, idx: Index, opts: list[Opt]) -> None:
                 if not restricted:
                     free_text, why = True, 'free text may contain & # % + = or spaces'
             elif 'list' in ps.returns and fs.kind == 'join':
-                validated = o.full_name in ('drmSelection',)
+                # items the parser itself validates: DRM names from a fixed vocabulary; `code=position`
+                # pairs of numbers / times (written into media URLs by calculate_cgi_parameters itself)
+                validated = o.full_name in ('drmSelection',) or o.from_string == '_errors_from_string'
                 if not validated:
                     free_text, why = True, 'list items are free text and may contain & # % + ='
             if free_text:
@@ -537,6 +539,8 @@ def r07_1e(rep: Report, idx: Index) -> None:
         name = val = None
         if isinstance(n, ast.Assign) and isinstance(n.targets[0], ast.Name):
             name, val = n.targets[0].id, n.value
+        elif isinstance(n, ast.AnnAssign) and isinstance(n.target, ast.Name) and n.value is not None:
+            name, val = n.target.id, n.value
         elif isinstance(n, ast.Call) and isinstance(n.func, ast.Attribute) and n.func.attr in ('append', 'add') \
                 and isinstance(n.func.value, ast.Name) and n.args:
             name, val = n.func.value.id, n.args[0]
@@ -604,6 +608,14 @@ def r07_1e(rep: Report, idx: Index) -> None:
             body = ' '.join(norm(b) for b in lp.body)
             if names[0] in body and names[1] in body and lp.iter.id == param:
                 ok = True
+    for comp in [n for n in ast.walk(fn) if isinstance(n, (ast.ListComp, ast.GeneratorExp, ast.SetComp))]:
+        for g in comp.generators:
+            if isinstance(g.target, ast.Tuple) and len(g.target.elts) == 2 and isinstance(g.iter, ast.Name) \
+                    and g.iter.id == param and not g.ifs:
+                names = [e.id for e in g.target.elts if isinstance(e, ast.Name)]
+                used = {x.id for x in ast.walk(comp.elt) if isinstance(x, ast.Name)}
+                if len(names) == 2 and set(names) <= used:
+                    ok = True
     # the iterated collection must be the parameter itself, not a rewritten copy
     reassigned = any(isinstance(n, ast.Assign) and isinstance(n.targets[0], ast.Name)
                      and n.targets[0].id == param for n in ast.walk(fn))
